@@ -10,13 +10,22 @@
 (* list GoVals(T).                                                                          *)
 EXTENDS GoTypes, Json, CSV
 
-CONSTANTS W, WS, Deep, OptSet
+CONSTANTS W, WS, Deep, OptSet,
+          Reps,        \* generations with fresh generators for the types of RepNames up to RepW wraps
+          RepW,
+          Which,       \* "all", or a split of the bases: "deep" (the families with long case lines) / "rest"
+          MutualFull   \* the mutually recursive families get the full (TRUE) or the core wrapper set, one level
 
-VARIABLES T, w, base, opt
-vars == <<T, w, base, opt>>
+VARIABLES gty, gw, gbase, gopt      \* (distinctive names: a variable called like an operator parameter slows TLC down)
+vars == <<gty, gw, gbase, gopt>>
 
 NoWrap == {"ES"}      \* generation dies on it: not a base here, it is the witness case of that listed finding
-Bases == BaseKinds \cup (DefNames \ NoWrap)
+AllBases == BaseKinds \cup (DefNames \ NoWrap)
+(* Some case lines of the DeepNames families exceed the 8 KB up to which concurrent CSVWrite     *)
+(* calls are atomic: the pipeline runs "rest" (all bases, many workers, writes the lines below     *)
+(* LongLine only) and "deep" (those families, one worker, writes the long lines only).             *)
+Bases == IF Which = "deep" THEN AllBases \cap DeepNames ELSE AllBases
+LongLine == 5000      \* characters of JSON; the written line (a quoted TLA+ string) is up to about 1.5 times as long
 BaseType(b) == IF b \in DefNames THEN Named(b) ELSE B(b)
 I8 == B("int8")
 TStrG == B("string")
@@ -44,14 +53,21 @@ Full(s) ==
          THEN {Struct(<<Emb("E", s), Fld("B", "b", I8)>>), Struct(<<Emb("E", Ptr(s)), Fld("B", "b", I8)>>)}
          ELSE {})
 
-WrapSet(s) == IF w = 0 \/ (w = 1 /\ base \in Deep) THEN Full(s) ELSE Core(s)
-MaxW == IF base \in Deep THEN W ELSE WS
+(* The mutually recursive families of GoTypes!DeepNames carry deep values (a cycle of length 3 is *)
+(* passed twice): they are wrapped once only.  What the generator puts into the component map    *)
+(* for mutually recursive types depends on map iteration order inside it, so these types (and    *)
+(* MA/MB) are generated Reps times with fresh generators and every run is judged.                *)
+RepNames == DeepNames \cup {"MA", "MB"}
+WrapSet(s) == IF gbase \in DeepNames THEN (IF MutualFull THEN Full(s) ELSE Core(s))
+              ELSE IF gw = 0 \/ (gw = 1 /\ gbase \in Deep) THEN Full(s) ELSE Core(s)
+MaxW == IF gbase \in DeepNames THEN 1 ELSE IF gbase \in Deep THEN W ELSE WS
+RepsOf == IF gbase \in RepNames /\ gw <= RepW THEN Reps ELSE 1
 
-Init == /\ base \in Bases /\ T = BaseType(base) /\ w = 0 /\ opt \in OptSet
+Init == /\ gbase \in Bases /\ gty = BaseType(gbase) /\ gw = 0 /\ gopt \in OptSet
 
-Next == /\ w < MaxW
-        /\ T' \in WrapSet(T) /\ w' = w + 1
-        /\ UNCHANGED <<base, opt>>
+Next == /\ gw < MaxW
+        /\ gty' \in WrapSet(gty) /\ gw' = gw + 1
+        /\ UNCHANGED <<gbase, gopt>>
 Spec == Init /\ [][Next]_vars
 
 RECURSIVE StripPtr(_)
@@ -69,13 +85,16 @@ StripPtr(t) == IF t.k = "ptr" THEN StripPtr(t.e) ELSE t
 Plain(o) == CASE o = "tng" -> "default" [] o = "tng_export" -> "export" [] o = "tng_exporttop" -> "exporttop"
               [] OTHER -> o
 OptOK ==
-   /\ opt \in {"tng", "tng_export", "tng_exporttop"} => ReachNames(T) # {}
-   /\ CASE Plain(opt) \in {"default", "useall"} -> TRUE
-        [] Plain(opt) \in {"export", "useall_export"} -> AnonStructs(T, TRUE) = 0
-        [] Plain(opt) = "exporttop" -> AnonStructs(T, TRUE) = 0 /\ StripPtr(T).k # "struct"
+   /\ gopt \in {"tng", "tng_export", "tng_exporttop"} => ReachNames(gty) # {}
+   /\ CASE Plain(gopt) \in {"default", "useall"} -> TRUE
+        [] Plain(gopt) \in {"export", "useall_export"} -> AnonStructs(gty, TRUE) = 0
+        [] Plain(gopt) = "exporttop" -> AnonStructs(gty, TRUE) = 0 /\ StripPtr(gty).k # "struct"
 
-Emit == OptOK => CSVWrite("%1$s", <<ToJson([T |-> T, opt |-> opt, vals |-> GoVals(T)])>>, "cases.ndjson")
+Emit == OptOK =>
+          LET text == ToJson([T |-> gty, opt |-> gopt, vals |-> GoVals(gty), reps |-> RepsOf]) IN
+          LET long == gbase \in DeepNames /\ Len(text) > LongLine IN
+          (Which = "all" \/ ((Which = "deep") = long)) => CSVWrite("%1$s", <<text>>, "cases.ndjson")
 
-EmitPoints == (w = 0 /\ base = "bool" /\ opt = "default") =>
+EmitPoints == (gw = 0 /\ gbase = "bool" /\ gopt = "default") =>
                  CSVWrite("%1$s", <<ToJson([points |-> Points, zero |-> ZeroIdx, halves |-> Halves])>>, "points.ndjson")
 =============================================================================
